@@ -194,6 +194,12 @@ def run(out: Outcome) -> None:
             xs += [abs(rng.gauss(level, 0.2)) for _ in range(rng.randint(p["min_num_instances"] + 5, 3 * p["min_num_instances"]))]
             xs += [abs(rng.gauss(level + rng.choice([3.0, 8.0]), 0.1)) for _ in range(rng.randint(2, 6))]     # a small step inside the short post-cut window
         check(out, p, xs, runners)
+    # input types: narrow numpy integer / float32 / bool scalars are finite non-negative numbers too (the window statistics must not take their dtype)
+    for dt in (np.uint8, np.int8, np.int16, np.int32, np.bool_, int, bool):   # (float32 inputs make numpy keep float32 precision: within the property's tolerance, but not comparable with the float64 model)
+        p = {"clock": rng.choice([1, 4]), "delta": 0.002, "m": 5, "min_window_size": 5, "min_num_instances": 10}
+        hi = 1 if dt in (np.bool_, bool) else (100 if dt is np.int8 else 250)
+        xs = [dt(rng.randint(0, hi)) for _ in range(120 if thorough else 60)]
+        check(out, p, xs, runners)
     # m = 1: rows are emptied by every merge, deletions must skip the emptied rows
     for i in range(20 if thorough else 8):
         p = {"clock": 1, "delta": rng.choice([0.3, 0.8]), "m": 1, "min_window_size": rng.choice([1, 2]), "min_num_instances": rng.choice([1, 3, 5])}
